@@ -48,7 +48,7 @@ func sameList(L *LState, base int, want []LValue) bool {
 
 // C14.strlib — string.find/match/gmatch/gsub deliver lstrlib's results (positions, captures, init clamping, replacement assembly).
 //
-//verif:harness prop=C14,C15 tier=quick qparams=slen:2 tparams=slen:3 bounds="12 patterns x subjects of <= slen symbolic bytes x init any 32-bit integer; gsub with 4 replacement strings"
+//verif:harness prop=C14,C15 tier=quick qparams=slen:2 tparams=slen:3 bounds="12 patterns x subjects of <= slen symbolic bytes x init any 32-bit integer; gsub with 4 replacement strings, function and table replacements returning a string / false / nil"
 func H_C14_strlib() {
 	L := newL(Options{}, BaseLibName, StringLibName)
 	pat := c14LibPatterns[VChoice(len(c14LibPatterns))]
@@ -56,7 +56,83 @@ func H_C14_strlib() {
 	src := VStr("s", n)
 	strlib := L.GetGlobal("string")
 	base := L.GetTop()
-	switch VChoice(4) {
+	switch VChoice(5) {
+	case 4: // gsub with function and table replacements: false/nil keep the match, strings replace it
+		mode := VChoice(2)
+		retKind := VChoice(3) // what the callback returns / the table holds: string, false, nil
+		ref, _ := pm.RefFindAll(pat, []byte(src))
+		L.Push(L.GetField(strlib, "gsub"))
+		L.Push(LString(src))
+		L.Push(LString(pat))
+		calls := 0
+		var seenArgs [][]LValue
+		if mode == 0 {
+			L.Push(L.NewFunction(func(L *LState) int {
+				calls++
+				var a []LValue
+				for i := 1; i <= L.GetTop(); i++ {
+					a = append(a, L.Get(i))
+				}
+				seenArgs = append(seenArgs, a)
+				switch retKind {
+				case 0:
+					L.Push(LString("<R>"))
+				case 1:
+					L.Push(LFalse)
+				default:
+					L.Push(LNil)
+				}
+				return 1
+			}))
+		} else {
+			tb := L.NewTable()
+			mtb := L.NewTable()
+			mtb.RawSetString("__index", L.NewFunction(func(L *LState) int {
+				calls++
+				seenArgs = append(seenArgs, []LValue{L.Get(2)})
+				switch retKind {
+				case 0:
+					L.Push(LString("<R>"))
+				case 1:
+					L.Push(LFalse)
+				default:
+					L.Push(LNil)
+				}
+				return 1
+			}))
+			tb.Metatable = mtb
+			L.Push(tb)
+		}
+		err := L.PCall(3, 2, nil)
+		VAssert(err == nil, "gsub(fn/table): no error: "+pat)
+		want := ""
+		pos := 0
+		for _, m := range ref {
+			want += src[pos:m.Start]
+			if retKind == 0 {
+				want += "<R>"
+			} else {
+				want += src[m.Start:m.End] // false or nil: the original match is kept
+			}
+			pos = m.End
+		}
+		want += src[pos:]
+		VAssert(sameValue(L.Get(base+1), LString(want)), "gsub(fn/table): a false or nil replacement keeps the match, a string replaces it: "+pat)
+		VAssert(L.Get(base+2) == LNumber(len(ref)), "gsub(fn/table): count is the number of matches: "+pat)
+		VAssert(calls == len(ref), "gsub(fn/table): the replacement is consulted once per match: "+pat)
+		for i, m := range ref {
+			if i < len(seenArgs) {
+				wantArgs := refCaptureValues(src, m, true)
+				if mode == 1 {
+					wantArgs = wantArgs[:1] // a table is indexed with the first capture (or the whole match)
+				}
+				okArgs := len(seenArgs[i]) == len(wantArgs)
+				for j := 0; okArgs && j < len(wantArgs); j++ {
+					okArgs = sameValue(seenArgs[i][j], wantArgs[j])
+				}
+				VAssert(okArgs, "gsub(fn/table): the replacement receives the captures (or the whole match): "+pat)
+			}
+		}
 	case 0, 1: // find / match with init
 		isFind := VChoice(2) == 0
 		init := int(VI32("init"))
